@@ -195,6 +195,9 @@ impl<'a> PostConversionLinter for UserDefinedFunctionLinter<'a> {
                 }
                 Ok(())
             }
+            Expression::Property(left, _, _) => {
+                self.visit_expression(&left.as_ref().clone().at_pos(*pos))
+            }
             _ => Ok(()),
         }
     }
